@@ -105,6 +105,9 @@ def run(tier):
     for i_, c_ in enumerate(cases):
         n_ = len(c_["sol"]["x"])
         c_["sol"]["nx"] = n_ if i_ % 6 != 3 else (0 if i_ % 18 == 3 else n_ // 2)
+    # a solver answers a binary NL file with a binary .sol file: every second case in binary format gets one
+    for i_, c_ in enumerate(cases):
+        c_["sol"]["binary"] = (not c_["text"]) and i_ % 2 == 0
     prevs = pick_prevs(cases)
     lines = run_cases(exe, cases, d, prevs)
     log("[C08] h_easy: %d records, %.1fs" % (len(lines), time.time() - t1))
